@@ -605,8 +605,21 @@ def _empty_model(fn):
                 for (x, y) in ((s_[2], s_[3]), (s_[3], s_[2])):
                     if const_val(y) == 0 and arg_name(x):
                         yield arg_name(x)
+    polarity = True
     for at in A_.atoms(fn):
         fields |= set(zero_tests(at.term))
+        c = at.cond()
+        if c and c[0] in ("Eq", "Ne"):
+            for (x, y) in ((c[1], c[2]), (c[2], c[1])):
+                if const_val(y) == 0 and arg_name(x):
+                    fields.add(arg_name(x))
+                    # the non-zero outcome never answers "empty"
+                    nz = at.false_ret if c[0] == "Eq" else at.true_ret
+                    z = at.true_ret if c[0] == "Eq" else at.false_ret
+                    if nz and all(r[0] == "const" for r in nz) and {r[1] for r in nz} != {0}:
+                        polarity = False
+                    if z and all(r[0] == "const" for r in z) and {r[1] for r in z} == {0}:
+                        polarity = False
     for bi, bb in enumerate(fn.blocks):
         for si, st in enumerate(bb["s"]):
             if st["k"] == "=" and st["rv"].get("bin") == "Eq":
@@ -630,7 +643,7 @@ def _empty_model(fn):
         if got == {"amount_owed"} and strip(rets[0])[0] == "bin":
             fields |= got
             form, covered = "all", True
-    return frozenset(fields), covered, form
+    return frozenset(fields), covered and polarity, form
 
 
 def _same_empty_definition(a, b):
